@@ -1520,27 +1520,46 @@ fn depth0<'a, T: serde::Deserialize<'a>>(node: &'static SchemaNode<'static>, dat
 }
 
 // @harness props=C04 tier=quick timeout=1200
-// @bound allowed_depth = 0: entering an array, a map, a record, a union (as a value, as Option, as a Rust enum), an enum read as a Rust enum must each be refused (targets that do not descend further: the refusal has to come from the depth budget of that very descent)
+// @bound allowed_depth = 0: entering an array, a map, a record must each be refused (targets that do not descend further: the refusal has to come from the depth budget of that very descent)
 #[kani::proof]
 #[kani::unwind(8)]
 #[kani::stub(alloc::fmt::format, crate::verif::stub_format)]
-fn c04_depth_zero_every_descent() {
+fn c04_depth_zero_containers() {
 	crate::verif::stack_node!(arr = nodes::array_of(&nodes::LONG));
 	crate::verif::stack_node!(map = nodes::map_of(&nodes::LONG));
 	crate::verif::record_node!(rec = "r", None; [("a", &nodes::LONG)]);
-	crate::verif::union_node_de!(un = [&nodes::NULL, &nodes::LONG]);
-	crate::verif::enum_node!(en = "e", None; ["a", "b"]);
 	let data = [0u8, 0, 0];
 	assert!(depth0::<MapTarget>(arr, &data), "c04_depth: entering an array did not cost a depth level");
 	assert!(depth0::<MapTarget>(map, &data), "c04_depth: entering a map did not cost a depth level");
 	assert!(depth0::<MapTarget>(rec, &data), "c04_depth: entering a record did not cost a depth level");
+	kani::cover!(true, "end of harness reached");
+}
+
+// @harness props=C04 tier=thorough timeout=3600
+// @bound allowed_depth = 0: entering a union (as a value, as a Rust enum) must be refused
+#[kani::proof]
+#[kani::unwind(8)]
+#[kani::stub(alloc::fmt::format, crate::verif::stub_format)]
+fn c04_depth_zero_union() {
+	crate::verif::union_node_de!(un = [&nodes::NULL, &nodes::LONG]);
+	let data = [0u8, 0, 0];
 	assert!(depth0::<()>(un, &data), "c04_depth: entering a union did not cost a depth level");
 	assert!(depth0::<EnumTarget>(un, &data), "c04_depth: entering a union as enum did not cost a depth level");
+	kani::cover!(true, "end of harness reached");
+}
+
+// @harness props=C04 tier=quick timeout=1200
+// @bound allowed_depth = 0: reading an enum / a plain value as a Rust enum must be refused
+#[kani::proof]
+#[kani::unwind(8)]
+#[kani::stub(alloc::fmt::format, crate::verif::stub_format)]
+fn c04_depth_zero_enum() {
+	crate::verif::enum_node!(en = "e", None; ["a", "b"]);
+	let data = [0u8, 0, 0];
 	assert!(depth0::<EnumTarget>(en, &data), "c04_depth: reading an enum as a Rust enum did not cost a depth level");
 	assert!(depth0::<EnumTarget>(&nodes::DOUBLE, &data), "c04_depth: reading a value as a newtype-variant enum did not cost a depth level");
 	kani::cover!(true, "end of harness reached");
 }
-
 /// reference decode of map<long> into at most 2 entries with keys of at most 1 byte
 fn ref_map_long(d: &mut spec::Dec, keys: &mut [OBytes<1>; 2], vals: &mut [i64; 2], n: &mut usize, over: &mut bool) -> Option<()> {
 	let mut left: u64 = 0;
@@ -1586,7 +1605,7 @@ fn ref_map_long(d: &mut spec::Dec, keys: &mut [OBytes<1>; 2], vals: &mut [i64; 2
 	}
 }
 
-// @harness props=C03,C04 also=C01 tier=quick timeout=1800
+// @harness props=C03,C04 also=C01 tier=thorough timeout=3600
 // @bound map<long>: every byte string of length 0..=6 against the reference decoder (string keys: UTF-8 verdict from the reference validator), maps of more than 2 entries or keys longer than 1 byte are outside
 #[kani::proof]
 #[kani::unwind(10)]
